@@ -414,10 +414,14 @@ func runParent(e *Engine, tier string, seed uint64, par int) int {
 		"wall_s":      time.Since(start).Seconds(),
 		"violations":  len(fresh),
 	}
-	os.MkdirAll(filepath.Join(VerifDir, "evidence"), 0o755)
+	evDir := filepath.Join(VerifDir, "evidence")
+	if d := os.Getenv("VERIF_EVIDENCE_DIR"); d != "" {
+		evDir = d // experiments against a scratch copy must not overwrite the real evidence
+	}
+	os.MkdirAll(evDir, 0o755)
 	eb, _ := json.MarshalIndent(ev, "", " ")
 	if total.Evaluations > 0 && distinct >= 2 {
-		os.WriteFile(filepath.Join(VerifDir, "evidence", e.ID+".json"), eb, 0o644)
+		os.WriteFile(filepath.Join(evDir, e.ID+".json"), eb, 0o644)
 	}
 
 	fmt.Printf("SUMMARY property=%s tier=%s seed=%d evaluations=%d distinct_nontrivial=%d violations=%d known=%d wall=%.1fs\n",
